@@ -208,6 +208,16 @@ func (w *World) pidOf(a int, st *Step) string {
 // encodeBody renders fields as a form or JSON body.
 func (w *World) encodeBody(fields map[string]string) (string, string) {
 	if w.Cfg.JSON {
+		if fields["rm"] == "bool:true" {
+			// a client that sends the remember flag as a JSON boolean
+			m := map[string]interface{}{}
+			for k, v := range fields {
+				m[k] = v
+			}
+			m["rm"] = true
+			b, _ := json.Marshal(m)
+			return string(b), "application/json"
+		}
 		b, _ := json.Marshal(fields)
 		return string(b), "application/json"
 	}
@@ -326,6 +336,9 @@ func (w *World) Exec(n int, st *Step) *Obs {
 		}
 		if st.RM {
 			fields["rm"] = "true"
+			if st.str("rm_bool") != "" {
+				fields["rm"] = "bool:true"
+			}
 		}
 	case "login_get":
 		method, path, hasBody = "GET", mp("/login"), false
@@ -665,6 +678,7 @@ func (w *World) doRequest(o *Obs, st *Step, method, path, rawq, body, ctype stri
 		req.Header.Set("Content-Type", ctype)
 	}
 	rec := httptest.NewRecorder()
+	rec.Header().Set(browserHeader, fmt.Sprint(st.B))
 	w.cur = &reqCtx{browser: st.B, fault: st.Fault, logsFrom: len(w.Logs), mailsFrom: len(w.Mails), smsFrom: len(w.SMSes)}
 	w.Stats.Requests++
 	func() {
@@ -681,6 +695,7 @@ func (w *World) doRequest(o *Obs, st *Step, method, path, rawq, body, ctype stri
 	w.cur = nil
 
 	o.Status = rec.Code
+	rec.Header().Del(browserHeader)
 	o.Header = rec.Header()
 	o.Body = rec.Body.String()
 	o.Location = rec.Header().Get("Location")
